@@ -410,10 +410,12 @@ func (conn *Conn) internalConnect(ctx context.Context) error {
 	conn.initialise()
 
 	if !hasPort(conn.cfg.Server) {
+		// JoinHostPort adds the brackets an IPv6 literal needs itself.
+		host := strings.TrimSuffix(strings.TrimPrefix(conn.cfg.Server, "["), "]")
 		if conn.cfg.SSL {
-			conn.cfg.Server = net.JoinHostPort(conn.cfg.Server, "6697")
+			conn.cfg.Server = net.JoinHostPort(host, "6697")
 		} else {
-			conn.cfg.Server = net.JoinHostPort(conn.cfg.Server, "6667")
+			conn.cfg.Server = net.JoinHostPort(host, "6667")
 		}
 	}
 
